@@ -310,36 +310,52 @@ func (ex *Exec) appendOp(st *State, c *ssa.CallCommon) string {
 	}
 	sT := c.Args[0].Type().Underlying().(*types.Slice)
 	s := ex.val(c.Args[0])
-	// second arg: slice or string
-	var n, srcRead string
 	e := ex.val(c.Args[1])
 	comp := g.arrComp(sT.Elem())
 	old := g.get(st, comp)
-	if _, isStr := c.Args[1].Type().Underlying().(*types.Basic); isStr {
+	es := g.sortOf(sT.Elem())
+	_, isStr := c.Args[1].Type().Underlying().(*types.Basic)
+	var n string
+	if isStr {
 		g.needByteAt()
 		n = fmt.Sprintf("(st.len %s)", e)
-		srcRead = fmt.Sprintf("(st.at %s j)", e)
-		if g.mode == "bv" {
-			srcRead = fmt.Sprintf("((_ int2bv 8) (st.at %s j))", e)
-		}
 	} else {
 		n = fmt.Sprintf("(s.len %s)", e)
-		srcRead = fmt.Sprintf("(select (select %s (s.arr %s)) (+ (s.off %s) j))", old, e, e)
 	}
-	es := g.sortOf(sT.Elem())
 	nl := ex.bind("app.len", "Int", fmt.Sprintf("(+ (s.len %s) %s)", s, n))
 	inplace := ex.bind("app.inplace", "Bool", fmt.Sprintf("(and (<= %s (s.cap %s)) (not (= (s.arr %s) 0)))", nl, s, s))
-	// contents of the resulting backing array
 	na := g.freshConst("app.arr", fmt.Sprintf("(Array Int %s)", es))
 	nr := ex.newRef(st, "arr")
 	ncap := g.freshConst("app.cap", "Int")
 	g.addFact(fmt.Sprintf("(>= %s %s)", ncap, nl))
-	// in place: same array except appended region; fresh: copy prefix then appended region
 	oldArr := fmt.Sprintf("(select %s (s.arr %s))", old, s)
-	g.addFact(fmt.Sprintf("(=> %s (forall ((i Int)) (! (= (select %s i) (ite (and (>= i (+ (s.off %s) (s.len %s))) (< i (+ (s.off %s) %s))) (let ((j (- i (+ (s.off %s) (s.len %s))))) %s) (select %s i))) :pattern ((select %s i)))))",
-		inplace, na, s, s, s, nl, s, s, srcRead, oldArr, na))
-	g.addFact(fmt.Sprintf("(=> (not %s) (forall ((i Int)) (! (and (=> (and (>= i 0) (< i (s.len %s))) (= (select %s i) (select %s (+ (s.off %s) i)))) (=> (and (>= i (s.len %s)) (< i %s)) (= (select %s i) (let ((j (- i (s.len %s)))) %s)))) :pattern ((select %s i)))))",
-		inplace, s, na, oldArr, s, s, nl, na, s, srcRead, na))
+	// SRC(j): j-th appended element; OLD(p): element at absolute position p of the old backing array.
+	// Reads of the old arrays inside the quantified facts go through these two functions so that the
+	// facts do not generate new array-read terms (which would re-trigger each other when source and
+	// destination share a backing array, as in append(s[:i], s[i+1:]...)).
+	g.nfresh++
+	SRC := fmt.Sprintf("|app.src!%d|", g.nfresh)
+	OLD := fmt.Sprintf("|app.old!%d|", g.nfresh)
+	g.decls = append(g.decls, fmt.Sprintf("(declare-fun %s (Int) %s)", SRC, es), fmt.Sprintf("(declare-fun %s (Int) %s)", OLD, es))
+	dst := fmt.Sprintf("(+ (s.off %s) (s.len %s))", s, s)
+	g.addFact(fmt.Sprintf("(=> %s (forall ((i Int)) (! (= (select %s i) (ite (and (>= i %s) (< i (+ (s.off %s) %s))) (%s (- i %s)) (%s i))) :pattern ((select %s i)))))",
+		inplace, na, dst, s, nl, SRC, dst, OLD, na))
+	g.addFact(fmt.Sprintf("(=> (not %s) (forall ((i Int)) (! (and (=> (and (>= i 0) (< i (s.len %s))) (= (select %s i) (%s (+ (s.off %s) i)))) (=> (and (>= i (s.len %s)) (< i %s)) (= (select %s i) (%s (- i (s.len %s)))))) :pattern ((select %s i)))))",
+		inplace, s, na, OLD, s, s, nl, na, SRC, s, na))
+	dstBase := fmt.Sprintf("(ite %s %s (s.len %s))", inplace, dst, s)
+	if isStr {
+		at := "(st.at %s j)"
+		if g.mode == "bv" {
+			at = "((_ int2bv 8) (st.at %s j))"
+		}
+		g.addFact(fmt.Sprintf("(forall ((j Int)) (! (= (%s j) %s) :pattern ((%s j))))", SRC, fmt.Sprintf(at, e), SRC))
+	} else {
+		srcArr := fmt.Sprintf("(select %s (s.arr %s))", old, e)
+		g.addFact(fmt.Sprintf("(forall ((q Int)) (! (=> (and (>= q (s.off %s)) (< q (+ (s.off %s) %s))) (and (= (%s (- q (s.off %s))) (select %s q)) (= (select %s (+ (- q (s.off %s)) %s)) (select %s q)))) :pattern ((select %s q))))",
+			e, e, n, SRC, e, srcArr, na, e, dstBase, srcArr, srcArr))
+	}
+	g.addFact(fmt.Sprintf("(forall ((p Int)) (! (and (= (%s p) (select %s p)) (=> (and %s (not (and (>= p %s) (< p (+ (s.off %s) %s))))) (= (select %s p) (select %s p))) (=> (and (not %s) (>= p (s.off %s)) (< p %s)) (= (select %s (- p (s.off %s))) (select %s p)))) :pattern ((select %s p))))",
+		OLD, oldArr, inplace, dst, s, nl, na, oldArr, inplace, s, dst, na, s, oldArr, oldArr))
 	res := ex.bind("app.res", "Slice", fmt.Sprintf("(ite %s (mk-slice (s.arr %s) (s.off %s) %s (s.cap %s)) (mk-slice %s 0 %s %s))", inplace, s, s, nl, s, nr, nl, ncap))
 	g.set(st, comp, fmt.Sprintf("(store %s (s.arr %s) %s)", old, res, na))
 	return res
@@ -355,28 +371,40 @@ func (ex *Exec) copyOp(st *State, c *ssa.CallCommon) string {
 	s := ex.val(c.Args[1])
 	comp := g.arrComp(dT.Elem())
 	old := g.get(st, comp)
-	var sl, srcRead string
-	if _, isStr := c.Args[1].Type().Underlying().(*types.Basic); isStr {
+	es := g.sortOf(dT.Elem())
+	_, isStr := c.Args[1].Type().Underlying().(*types.Basic)
+	var sl string
+	if isStr {
 		g.needByteAt()
 		sl = fmt.Sprintf("(st.len %s)", s)
-		srcRead = fmt.Sprintf("(st.at %s j)", s)
-		if g.mode == "bv" {
-			srcRead = fmt.Sprintf("((_ int2bv 8) (st.at %s j))", s)
-		}
 	} else {
 		sl = fmt.Sprintf("(s.len %s)", s)
-		srcRead = fmt.Sprintf("(select (select %s (s.arr %s)) (+ (s.off %s) j))", old, s, s)
 	}
 	n := ex.bind("copy.n", "Int", fmt.Sprintf("(ite (< (s.len %s) %s) (s.len %s) %s)", d, sl, d, sl))
-	es := g.sortOf(dT.Elem())
 	na := g.freshConst("copy.arr", fmt.Sprintf("(Array Int %s)", es))
 	oldArr := fmt.Sprintf("(select %s (s.arr %s))", old, d)
-	g.addFact(fmt.Sprintf("(forall ((i Int)) (! (= (select %s i) (ite (and (>= i (s.off %s)) (< i (+ (s.off %s) %s))) (let ((j (- i (s.off %s)))) %s) (select %s i))) :pattern ((select %s i))))",
-		na, d, d, n, d, srcRead, oldArr, na))
+	g.nfresh++
+	SRC := fmt.Sprintf("|copy.src!%d|", g.nfresh)
+	OLD := fmt.Sprintf("|copy.old!%d|", g.nfresh)
+	g.decls = append(g.decls, fmt.Sprintf("(declare-fun %s (Int) %s)", SRC, es), fmt.Sprintf("(declare-fun %s (Int) %s)", OLD, es))
+	g.addFact(fmt.Sprintf("(forall ((i Int)) (! (= (select %s i) (ite (and (>= i (s.off %s)) (< i (+ (s.off %s) %s))) (%s (- i (s.off %s))) (%s i))) :pattern ((select %s i))))",
+		na, d, d, n, SRC, d, OLD, na))
+	if isStr {
+		at := "(st.at %s j)"
+		if g.mode == "bv" {
+			at = "((_ int2bv 8) (st.at %s j))"
+		}
+		g.addFact(fmt.Sprintf("(forall ((j Int)) (! (= (%s j) %s) :pattern ((%s j))))", SRC, fmt.Sprintf(at, s), SRC))
+	} else {
+		srcArr := fmt.Sprintf("(select %s (s.arr %s))", old, s)
+		g.addFact(fmt.Sprintf("(forall ((q Int)) (! (=> (and (>= q (s.off %s)) (< q (+ (s.off %s) %s))) (and (= (%s (- q (s.off %s))) (select %s q)) (= (select %s (+ (- q (s.off %s)) (s.off %s))) (select %s q)))) :pattern ((select %s q))))",
+			s, s, n, SRC, s, srcArr, na, s, d, srcArr, srcArr))
+	}
+	g.addFact(fmt.Sprintf("(forall ((p Int)) (! (and (= (%s p) (select %s p)) (=> (not (and (>= p (s.off %s)) (< p (+ (s.off %s) %s)))) (= (select %s p) (select %s p)))) :pattern ((select %s p))))",
+		OLD, oldArr, d, d, n, na, oldArr, oldArr))
 	g.set(st, comp, fmt.Sprintf("(ite (= %s 0) %s (store %s (s.arr %s) %s))", n, old, old, d, na))
 	return ex.fromMathInt(n)
 }
-
 
 // sortSlice: built-in (trusted) semantics of sort.Slice(x, less) when x is a slice boxed at the call
 // site and less is a closure literal that is a pure function of the heap:
